@@ -66,6 +66,7 @@ type Step struct {
 	Pool   []int  `json:"pool,omitempty"`
 	ID     string `json:"id,omitempty"`
 	Edit   string `json:"edit,omitempty"`
+	Hosts  int    `json:"hosts,omitempty"` // create: the new silence matches h=~"host-0000|host-0001|..." with this many names
 	Params []QP   `json:"params,omitempty"`
 	Now    int64  `json:"now,omitempty"`
 	Out    string `json:"out,omitempty"`
@@ -73,6 +74,7 @@ type Step struct {
 
 type Case struct {
 	Retention int64  `json:"retention"`
+	MaxSize   int    `json:"max_size,omitempty"` // Limits.MaxSilenceSizeBytes on BOTH instances (0 = none)
 	Vers      []Ver  `json:"vers"`
 	Steps     []Step `json:"steps"`
 	// Race != nil: not a schedule but a run of the concurrent engine (race_test.go) with these parameters
@@ -307,7 +309,11 @@ func encode(recs []*pb.MeshSilence) []byte {
 
 func (r *runner) newInst() *inst {
 	i := &inst{ref: map[string]*pb.MeshSilence{}, timely: map[string]bool{}}
-	s, err := silence.New(silence.Options{Retention: r.ret, Metrics: prometheus.NewRegistry()})
+	opts := silence.Options{Retention: r.ret, Metrics: prometheus.NewRegistry()}
+	if r.c.MaxSize > 0 {
+		opts.Limits = silence.Limits{MaxSilenceSizeBytes: func() int { return r.c.MaxSize }}
+	}
+	s, err := silence.New(opts)
 	if err != nil {
 		r.t.Fatal(err)
 	}
@@ -538,7 +544,12 @@ func (r *runner) exec(k int) {
 	case "merge":
 		var recs []*pb.MeshSilence
 		for _, p := range stp.Pool {
-			recs = append(recs, r.pool[p%len(r.pool)].recs...)
+			if len(r.pool) > 0 {
+				recs = append(recs, r.pool[p%len(r.pool)].recs...)
+			}
+		}
+		if len(recs) == 0 {
+			break
 		}
 		r.mergeBytes(ix, encode(recs), recs, now, label)
 	case "sync": // full-state exchange (push/pull) in both directions through the REAL MarshalBinary
@@ -595,6 +606,31 @@ func (r *runner) exec(k int) {
 		if len(r.pool) != nb && len(r.viol) == before {
 			r.violate("remerge-gossiped", label+": re-merging the instance's own state was re-broadcast")
 		}
+	case "create": // a silence created through this instance's API, its matcher an alternation of many host names
+		sil := &pb.Silence{StartsAt: timestamppb.New(time.Unix(0, now)), EndsAt: timestamppb.New(time.Unix(0, now+int64(time.Hour))),
+			MatcherSets: []*pb.MatcherSet{{Matchers: []*pb.Matcher{{Type: pb.Matcher_REGEXP, Name: "h", Pattern: hostPattern(stp.Hosts)}}}},
+			CreatedBy: "local", Comment: fmt.Sprintf("created at step %d", k)}
+		inTerm := r.coqSil(sil)
+		i.bcast = nil
+		err := i.s.Set(ctx, sil)
+		fresh := r.peek()
+		var sz int64
+		var outTerm string
+		switch {
+		case err == nil:
+			sz = int64(proto.Size(&pb.MeshSilence{Silence: sil, ExpiresAt: timestamppb.New(sil.EndsAt.AsTime().Add(r.ret))}))
+			fresh = r.alloc(sil.Id)
+			outTerm = vh.App("RSetOk", vh.Str(fresh), vh.List(r.takeBroadcasts(i, now)))
+			r.tags[fmt.Sprintf("create/accepted-at-%d%%-of-limit", 10*(10*int(sz)/max(r.c.MaxSize, 1)))]++
+		case strings.Contains(err.Error(), "exceeded maximum size"):
+			sz = int64(proto.Size(&pb.MeshSilence{Silence: sil, ExpiresAt: timestamppb.New(sil.EndsAt.AsTime().Add(r.ret))}))
+			outTerm = vh.App("RErr", vh.Str("toobig"))
+			r.tags["create/over-the-limit"]++
+		default:
+			outTerm = vh.App("RErr", vh.Str("?"))
+		}
+		i.hist = append(i.hist, fmt.Sprintf("(%s, XOp %s, XOut %s)", vh.Z(now), vh.App("OSet", inTerm, vh.Str(fresh), vh.Z(sz)), outTerm))
+		r.observe(ix, now, label)
 	case "set", "expire":
 		id := r.rid(stp.ID)
 		cur, _, _ := i.s.Query(ctx, silence.QIDs(id))
@@ -886,6 +922,49 @@ func lostUpdateCases(g *vh.Rand, n int) []Case {
 	return out
 }
 
+func hostPattern(n int) string {
+	hs := make([]string, n)
+	for i := range hs {
+		hs[i] = fmt.Sprintf("host-%04d", i)
+	}
+	return strings.Join(hs, "|")
+}
+
+// hostCounts: numbers of names whose alternation makes the STORED silence about 30% ... 105% of the limit
+func hostCounts(limit int) []int {
+	var out []int
+	for _, pc := range []int{30, 48, 52, 60, 75, 90, 97, 105} {
+		out = append(out, max(1, (limit*pc/100-95)/10))
+	}
+	return out
+}
+
+// limitCases: both instances run with Limits.MaxSilenceSizeBytes. Silences that are mostly matchers, sized from well
+// under half the limit to just over it, are created through one instance's API; whatever that API ACCEPTS must
+// replicate: its gossip is merged by the peer, and every full state containing it is merged by the peer (the wire
+// form repeats the first matcher set in the legacy field, so it is up to twice as large as what the limit measured).
+func limitCases(g *vh.Rand) []Case {
+	var out []Case
+	for _, limit := range []int{1024, 2048} {
+		for _, n := range hostCounts(limit) {
+			a := g.Intn(2)
+			c := Case{Retention: int64(time.Hour), MaxSize: limit}
+			c.Steps = append(c.Steps,
+				Step{Inst: a, Dt: 1_000_000_000, Kind: "create", Hosts: 2},
+				Step{Inst: a, Dt: 1_000_000_000, Kind: "create", Hosts: n},
+				Step{Inst: 1 - a, Dt: 1, Kind: "merge", Pool: []int{1}},
+				Step{Inst: 1 - a, Dt: 1, Kind: "merge", Pool: []int{0, 1}},
+				Step{Dt: 1_000_000_000, Kind: "sync"},
+				Step{Inst: a, Dt: 1_000_000_000, Kind: "expire", ID: "u1"},
+				Step{Inst: 1 - a, Dt: 1, Kind: "create", Hosts: max(1, n/2)},
+				Step{Dt: 1, Kind: "sync"},
+				Step{Inst: a, Kind: "remerge"})
+			out = append(out, c)
+		}
+	}
+	return out
+}
+
 // permutations of 0..n-1
 func perms(n int) [][]int {
 	if n == 0 {
@@ -970,7 +1049,7 @@ func runCase(t *testing.T, c *Case, ext string) (term string, viol []vh.Violatio
 			r.tags["tie-scenario"]++
 		}
 	})
-	cfg := vh.App("mkCfg", vh.Z(c.Retention), "0", "0")
+	cfg := vh.App("mkCfg", vh.Z(c.Retention), "0", vh.Z(int64(c.MaxSize)))
 	return fmt.Sprintf("mkCase2 %s %s [\n  %s] [\n  %s] %s", cfg, ext, strings.Join(r.in[0].hist, ";\n  "), strings.Join(r.in[1].hist, ";\n  "), vh.Bool(same)), r.viol, r.tags, same
 }
 
@@ -1032,6 +1111,10 @@ func TestCheck(t *testing.T) {
 				c := c
 				finish(&c, fmt.Sprintf("all-orders-%d", n))
 			}
+		}
+		for _, c := range limitCases(g.Fork()) {
+			c := c
+			finish(&c, "size-limit-on-all-members")
 		}
 		for _, c := range lostUpdateCases(g.Fork(), env.N(18, 5)) {
 			c := c
